@@ -15,7 +15,7 @@ for d in sorted(os.listdir('/verif/seeded')):
     meta = json.load(open(f'/verif/seeded/{d}/meta.json'))
     key = f'seeded/{d}/patch.diff'
     pid, rc, sig = rows.get(key, (d[:3], '?', ''))
-    res = {'exit=1': 'VIOLATION', 'exit=0': 'no alarm (neutralised by a repair, see below)', '': 'patch no longer applies (neutralised by a repair)'}.get(rc, rc)
+    res = {'exit=1': 'VIOLATION', 'exit=0': 'no alarm (neutralised by a repair, see below)', '': 'patch no longer applies (neutralised by a repair)', 'exit=3': 'patch no longer applies (neutralised by a repair, see below)'}.get(rc, rc)
     if d in LIMITS and rc in ('exit=0', 'exit=2'): res = 'not reported (stated limit of the harness, see the round notes below)'
     needs = meta.get('needs', '').replace('|', '/').replace('\n', ' ')
     if len(needs) > 230: needs = needs[:227] + '…'
